@@ -27,7 +27,7 @@ class AppFlow:
     def __init__(self, project: Project, qual: str):
         self.p = project
         self.func = project.func(qual)
-        self.cfg = cfg_of(self.func, project)
+        self.cfg = cfg_of(self.func, project, refined=True)  # path-sensitive for pure control flags (try/else -> flag refactorings)
         self.is_asgi = self.func.is_async
         fn = self.func.node
         self.req_stack = self.rsrc_stack = self.resp_stack = None
